@@ -129,6 +129,16 @@ def replay_recip(chk, rs, c, variants):
             continue
         chk.case((_cfg_key(c), prof_kind, prec, src_kind))
         cases = [("", gconc, gflx, dconc, dflx)]
+        # call history: the SAME footprint request with another halo right after it (nothing in between) - the identity
+        # holds for each halo with its own forward run
+        if kw["halo"] is not None:
+            h2 = kw["halo"] + 2.0 * max(c["ax"], c["ay"]) * rs.U
+            try:
+                _, gc3, gf3 = rs.solve3(np.zeros_like(q), kw, halo=h2)
+                _, dc3, df3 = rs.solve3(q, kw, footprint=False, meas_pt=(0.0, 0.0), halo=h2)
+                cases.append((" [the same request with halo %g right after halo %g]" % (h2, kw["halo"]), gc3, gf3, dc3, df3))
+            except Exception as e:
+                chk.drift_note("recip (second halo): %s raised %r" % (_cfg_key(c), e))
         # the same identity on lengths that are not exactly representable: the tower still sits on node (jm, im), but
         # coordinate / cell size need not evaluate to the integer in floating point (0.3 / 0.1)
         for sfac in (0.1 / 4.0, 100.0 / 36.0 / 4.0):
